@@ -164,7 +164,12 @@ func (fr *frame) fmtArg(v value) interface{} {
 			}
 		}
 		return fr.fmtArg(x.v)
-	case symBool, symInt, symFloat:
+	case symInt:
+		return fmtStr(fr.i.fmtSymInt(x))
+	case symBool:
+		// formatted text may be compared or hashed by the program (cache keys): keep it exact
+		return fr.i.path.branch(x.t, "format bool")
+	case symFloat:
 		return fmtStr("<sym>")
 	case bool, int, int8, int16, int32, int64, uint, uint8, uint16, uint32, uint64, uintptr, float32, float64, string:
 		return x
@@ -187,6 +192,27 @@ func (fr *frame) fmtArg(v value) interface{} {
 		return fmtStr(fmt.Sprintf("%p", x))
 	}
 	return fmtStr(toString(v))
+}
+
+// fmtSymInt: the text of a formatted symbolic integer. Programs hash or compare formatted
+// numbers (cache keys), so the text must be equal exactly when the values are: the text
+// names the term, and a term that may equal an earlier formatted one forks on that equality
+// (the solver prunes the impossible side).
+func (i *interpreter) fmtSymInt(x symInt) string {
+	p := i.path
+	name := func(t *smt.Term) string { return fmt.Sprintf("<sym#%d>", t.ID()) }
+	for _, prev := range p.fmtTerms {
+		if prev == x.t {
+			return name(prev)
+		}
+	}
+	for _, prev := range p.fmtTerms {
+		if p.branch(smt.Eq(prev, x.t), "format int") {
+			return name(prev)
+		}
+	}
+	p.fmtTerms = append(p.fmtTerms, x.t)
+	return name(x.t)
 }
 
 type fmtErr string
@@ -293,6 +319,7 @@ func init() {
 			t := fr.i.prog.ImportedPackage("github.com/prometheus/prometheus/promql").Type("query").Object().Type()
 			var cell value = zero(t)
 			fr.i.counters["fallback-queries"]++
+			fr.i.counters["fallback:"+n]++ // which entry point of the reference engine was used
 			return tuple{iface{t: types.NewPointer(t), v: &cell}, iface{}}
 		})
 	}
